@@ -1,28 +1,28 @@
 (* C15 at proof level: STRICT-MODE SOUNDNESS of the expression type checker (Impl/TypeCheck.v, model of x/exp/schema/validate) with
    respect to the evaluator (Impl/Eval.v), in the vocabulary of Lang/TypeSound.v.  Lemmas: Proofs/TypeSoundLemmas.v (must be compiled
-   first: lub subsumption, injectivity of capability keys, completeness of the schema-level descendant search, attribute / tag lookup,
-   extension calls).
+   first: lub subsumption, injectivity of capability keys, completeness of the schema-level descendant search and of the action-graph
+   search, attribute / tag lookup, extension calls).
 
    MAIN THEOREM (full expression language, every operator):
-     Theorem typeof_sound_strict : forall sch tv e, schema_wf sch -> tenv_wf sch tv -> keys_small e = true ->
+     Theorem typeof_sound_strict : forall sch tv e, schema_wf sch -> tenv_wf sch tv -> agraph_wf sch -> keys_small e = true ->
        forall caps t caps', typeof true sch tv e caps = TOk t caps' ->
-       forall en, env_ok sch tv en -> actions_closed sch (e_store en) -> caps_hold en caps ->
+       forall en, env_ok sch tv en -> actions_conform sch (e_store en) -> store_types_known sch (e_store en) -> caps_hold en caps ->
          match eval en e with
          | Ok v => vtyped v t /\ (v = VBool true -> caps_hold en caps')
          | Err k => allowed_error k = true           (* entity not in the store, overflow, extension error *)
          end.
-   i.e. `sound_at sch true tv e` of Lang/TypeSound.v with ONE extra hypothesis on the environment (actions_closed) and ONE on the
-   expression (keys_small).  Also proved:
-     typeof_sound_strict_actions : the same with actions_closed replaced by  action_parents_same_type (only about entities whose type
-        is an ACTION entity type: their parents have the same entity type)  and  store_types_known (every entity of the store has a
-        declared, enumerated or action type: Validator.Entity checks it, entity_ok does not say it),
+   i.e. `sound_at sch true tv e` of Lang/TypeSound.v, where "conforming environment" additionally contains the two facts the Go entity
+   validator checks and entity_ok does not state (actions_conform, store_types_known), for schemas with a well-formed action graph
+   (agraph_wf) and expressions with attribute names below 10^39 bytes (keys_small).  agraph_wf, actions_conform and store_types_known are
+   used by the `in` case only.  Also proved:
      typeof_sound_strict_in_free : schema_wf sch -> tenv_wf sch tv -> in_free_small e = true -> sound_at sch true tv e
-        (literally sound_at, no store hypothesis, for expressions without `in`; `is .. in` is allowed),
+        (literally sound_at, no extra store / action hypothesis, for expressions without `in`; `is .. in` is allowed),
      typeof_strict_WT   : every type typeof produces has pairwise distinct record keys at every depth,
      typeof_true_caps   : an expression typed True establishes its capabilities whether or not it is evaluated
                           (needed for `a || b` with b : True, whose capabilities are returned although b may not run),
      permissive_unsound : the permissive-mode counterexample (F29), by vm_compute,
-     strict_needs_actions_closed : the strict-mode statement WITHOUT actions_closed is false (concrete witness below).
+     strict_needs_action_conformance : without actions_conform the strict-mode statement is false (a store that env_ok admits and
+                          validateActionEntity rejects; concrete witness below, with a proof that it violates actions_conform).
 
    HYPOTHESES (definitions in TypeSoundLemmas.v):
    - schema_wf sch := entity_of sch [] = None /\
@@ -30,23 +30,35 @@
                         (forall k t q, alookup k (te_shape te) = Some (t, q) -> WT t) /\ (forall tt, te_tags te = Some tt -> WT tt)
        where WT t = the keys of every record type inside t (at any depth) are pairwise distinct.  (The empty name is not a declared
        entity type: otherwise `x.attr` on the zero UID fails with EUnspecified.  No condition on entity lubs, on CNever/CTrue/CFalse
-       inside schema types, on duplicate declarations, on parents, enums or actions.)
+       inside schema types, on duplicate declarations, on enums.)
    - tenv_wf sch tv := WT (CRec (tv_context tv)).      (Nothing about the principal / resource / action types.)
    - keys_small e: every attribute name k in an access `a.k` inside e is shorter than 10^39 bytes.  MODEL ARTIFACT: cap_key prints the
        length of k with Text.print_nat, which keeps 40 digits; with that bound cap_key is injective (cap_key_inj: one side small, the
        other side arbitrary), beyond it two different paths can in principle get the same key.  Go's strconv.Quote has no such limit.
-   - actions_closed sch st := forall u e p, lookup st u = Some e -> entity_of sch (fst u) = None -> smem (fst u) (ts_enums sch) = false ->
-                                 In p (e_parents e) -> fst p = fst u.
-       entity_ok constrains the parents of entities of declared types (declared parent types) and of enumerated types (none); the
-       remaining entities of a validated store are action entities (Validator.Entity rejects unknown types), whose parents entity_ok
-       does not constrain.  The checker types `a in b` False when no type-level path leads from a's type to b's type; for an
-       action-typed `a` that does not syntactically denote an action (else TUnk: the action hierarchy is consulted) this is right
-       only if action groups have the entity type of their members.  Only the `in` case uses it.
+   - agraph_wf sch :=
+       (forall a ps, In (a, ps) (ts_agraph sch) -> is_action_type (fst a) = true /\ forall p, In p ps -> In p (map fst (ts_agraph sch))) /\
+       (forall n, is_action_type n = true -> entity_of sch n = None /\ smem n (ts_enums sch) = false) /\
+       (forall n te p, entity_of sch n = Some te -> In p (te_parents te) -> is_action_type p = false)
+       (a) declared actions have action entity types and their listed parents are declared actions (resolveActions / qualifyActionType,
+       validateActionMembership); (b) an action entity type is neither declared nor enumerated (Cedar reserves the name Action; Go's
+       Validator.Entity tests isActionEntity first, so for such a name entity_ok and the Go code would disagree anyway); (c) no
+       declared entity type has an action entity type as a parent type.  (b), (c) keep type-level paths and action-graph paths apart:
+       any_descendant accepts one or the other, not a concatenation.
+   - actions_conform sch st := forall u e, lookup st u = Some e -> is_action_type (fst u) = true -> entity_of sch (fst u) = None ->
+                                  smem (fst u) (ts_enums sch) = false ->
+                                  exists ps, aparents sch u = Some ps /\ forall p, In p (e_parents e) -> aclosure sch u p
+       with aclosure sch = clos_trans of (aedge sch u p := exists ps, aparents sch u = Some ps /\ In p ps): what validateActionEntity
+       checks (the action is declared; its parents are the transitive closure of its declared groups - only "are in" is used).
+   - store_types_known sch st := forall u e, lookup st u = Some e ->
+                                  entity_of sch (fst u) <> None \/ smem (fst u) (ts_enums sch) = true \/ is_action_type (fst u) = true
+       (Validator.Entity: "entity type not found in schema").
 
-   FINDINGS made on the way (both fixed in the Go code and the model by now; the proofs are for the fixed model):
+   FINDINGS made on the way (all fixed in the Go code and the model by now; the proofs are for the fixed model):
    - hasTag on a non-singleton entity lub was typed False as soon as ONE member type had no tags;
-   - `in` with an enum-typed left operand was typed False although enum entities with parents were accepted by the entity validator.
-   Nothing else in the statement had to be weakened: no operator is excluded. *)
+   - `in` with an enum-typed left operand was typed False although enum entities with parents were accepted by the entity validator;
+   - `in` with an action-typed left operand that does not syntactically denote an action was typed False whenever the type names
+     differ, although action groups may live in another namespace (fixed: isActionTypeDescendant; is_action_ty_desc_complete here).
+   No operator is excluded. *)
 From Coq Require Import ZArith List Bool String Lia Relations Arith.
 Import ListNotations.
 From Cedar Require Import Base.Int64 Lang.Value Impl.Like Lang.Expr Impl.InSearch Impl.Eval Impl.TypeCheck Lang.TypeSound
@@ -174,7 +186,7 @@ Section Main.
     core ai e = true ->
     forall caps t caps', T e caps = TOk t caps' ->
       WT t /\
-      forall en, env_ok sch tv en -> (ai = true -> actions_closed sch (e_store en)) -> caps_hold en caps ->
+      forall en, env_ok sch tv en -> (ai = true -> in_hyps sch (e_store en)) -> caps_hold en caps ->
         res_sound en t caps' (eval en e) /\ ((t = CTrue \/ t = CNever) -> caps_hold en caps').
 
   Lemma res_sound_ok en t c r : res_sound en t c r -> res_ok r t.
@@ -823,7 +835,7 @@ Section Main.
     Forall P l -> forallb (core ai) l = true -> WT acc ->
     set_go (fun x => T x caps) caps l acc bad = TOk t caps' ->
     bad = false /\ caps' = caps /\ exists u, t = CSet u /\ WT u /\ sub acc u /\
-      Forall (fun x => forall en, env_ok sch tv en -> (ai = true -> actions_closed sch (e_store en)) -> caps_hold en caps -> res_ok (eval en x) u) l.
+      Forall (fun x => forall en, env_ok sch tv en -> (ai = true -> in_hyps sch (e_store en)) -> caps_hold en caps -> res_ok (eval en x) u) l.
   Proof.
     induction l as [|x r IH]; intros acc bad t caps' HP Hc Hw H.
     - cbn [set_go] in H. destruct bad; [discriminate|]. inversion H; subst. split; [reflexivity|]. split; [reflexivity|].
@@ -987,7 +999,7 @@ Section Main.
     Forall P l -> forallb (core ai) l = true -> List.length l = List.length tys ->
     call_go (fun x => T x caps) caps ret lp l tys bad = TOk t caps' ->
     bad = false /\ lp = false /\ t = ret /\ caps' = caps /\
-    Forall2 (fun x ty => forall en, env_ok sch tv en -> (ai = true -> actions_closed sch (e_store en)) -> caps_hold en caps -> res_ok (eval en x) ty) l tys.
+    Forall2 (fun x ty => forall en, env_ok sch tv en -> (ai = true -> in_hyps sch (e_store en)) -> caps_hold en caps -> res_ok (eval en x) ty) l tys.
   Proof.
     induction l as [|x r IH]; intros tys bad t caps' HP Hc Hlen H.
     - destruct tys; [|discriminate]. cbn [call_go] in H. destruct bad; [discriminate|]. destruct lp; [discriminate|].
@@ -1085,55 +1097,31 @@ Theorem typeof_strict_WT : forall sch tv e, schema_wf sch -> tenv_wf sch tv -> k
   forall caps t caps', typeof true sch tv e caps = TOk t caps' -> WT t.
 Proof. intros sch tv e Hs Ht Hc caps t caps' H. exact (proj1 (typeof_sound_all sch tv Hs Ht true e Hc caps t caps' H)). Qed.
 
-(* MAIN THEOREM: the full language, in every conforming environment whose action entities have parents of their own entity type *)
-Theorem typeof_sound_strict : forall sch tv e, schema_wf sch -> tenv_wf sch tv -> keys_small e = true ->
+(* MAIN THEOREM: the full language, in every conforming environment (env_ok, plus what the Go validator checks about action entities
+   and unknown entity types and entity_ok does not say: actions_conform, store_types_known) *)
+Theorem typeof_sound_strict : forall sch tv e, schema_wf sch -> tenv_wf sch tv -> agraph_wf sch -> keys_small e = true ->
   forall caps t caps', typeof true sch tv e caps = TOk t caps' ->
-  forall en, env_ok sch tv en -> actions_closed sch (e_store en) -> caps_hold en caps ->
+  forall en, env_ok sch tv en -> actions_conform sch (e_store en) -> store_types_known sch (e_store en) -> caps_hold en caps ->
     match eval en e with
     | Ok v => vtyped v t /\ (v = VBool true -> caps_hold en caps')
     | Err k => allowed_error k = true
     end.
 Proof.
-  intros sch tv e Hs Ht Hc caps t caps' H en Hen Hac Hcaps.
+  intros sch tv e Hs Ht Hg Hc caps t caps' H en Hen Hac Hk Hcaps.
   destruct (typeof_sound_all sch tv Hs Ht true e Hc caps t caps' H) as [_ Hsound].
-  destruct (Hsound en Hen (fun _ => Hac) Hcaps) as [Hr _]. exact Hr.
-Qed.
-
-(* the same, with the store hypothesis split into its action part and the fact (checked by Validator.Entity, but not part of entity_ok)
-   that every entity of a validated store has a declared, enumerated or action entity type *)
-Definition action_parents_same_type (sch : tschema) (st : store) : Prop :=
-  forall u e p, lookup st u = Some e -> is_action_type (fst u) = true -> entity_of sch (fst u) = None ->
-    In p (e_parents e) -> fst p = fst u.
-Definition store_types_known (sch : tschema) (st : store) : Prop :=
-  forall u e, lookup st u = Some e ->
-    entity_of sch (fst u) <> None \/ smem (fst u) (ts_enums sch) = true \/ is_action_type (fst u) = true.
-
-Lemma actions_closed_intro sch st : action_parents_same_type sch st -> store_types_known sch st -> actions_closed sch st.
-Proof.
-  intros Ha Hk u e p El Ee Es Hp. destruct (Hk _ _ El) as [H|[H|H]]; [congruence | congruence | eapply Ha; eauto].
-Qed.
-
-Corollary typeof_sound_strict_actions : forall sch tv e, schema_wf sch -> tenv_wf sch tv -> keys_small e = true ->
-  forall caps t caps', typeof true sch tv e caps = TOk t caps' ->
-  forall en, env_ok sch tv en -> action_parents_same_type sch (e_store en) -> store_types_known sch (e_store en) -> caps_hold en caps ->
-    match eval en e with
-    | Ok v => vtyped v t /\ (v = VBool true -> caps_hold en caps')
-    | Err k => allowed_error k = true
-    end.
-Proof.
-  intros sch tv e Hs Ht Hc caps t caps' H en Hen Ha Hk Hcaps.
-  eapply typeof_sound_strict; eauto using actions_closed_intro.
+  destruct (Hsound en Hen (fun _ => conj Hg (conj Hac Hk)) Hcaps) as [Hr _]. exact Hr.
 Qed.
 
 (* the stronger capability fact the induction carries: an expression typed True (or Never) establishes its capabilities in every
    conforming environment, whether or not it is evaluated (this is what `a || b` with b : True relies on) *)
-Theorem typeof_true_caps : forall sch tv e, schema_wf sch -> tenv_wf sch tv -> keys_small e = true ->
+Theorem typeof_true_caps : forall sch tv e, schema_wf sch -> tenv_wf sch tv -> agraph_wf sch -> keys_small e = true ->
   forall caps t caps', typeof true sch tv e caps = TOk t caps' -> (t = CTrue \/ t = CNever) ->
-  forall en, env_ok sch tv en -> actions_closed sch (e_store en) -> caps_hold en caps -> caps_hold en caps'.
+  forall en, env_ok sch tv en -> actions_conform sch (e_store en) -> store_types_known sch (e_store en) -> caps_hold en caps ->
+    caps_hold en caps'.
 Proof.
-  intros sch tv e Hs Ht Hc caps t caps' H Htt en Hen Hac Hcaps.
+  intros sch tv e Hs Ht Hg Hc caps t caps' H Htt en Hen Hac Hk Hcaps.
   destruct (typeof_sound_all sch tv Hs Ht true e Hc caps t caps' H) as [_ Hsound].
-  destruct (Hsound en Hen (fun _ => Hac) Hcaps) as [_ Hr]. exact (Hr Htt).
+  destruct (Hsound en Hen (fun _ => conj Hg (conj Hac Hk)) Hcaps) as [_ Hr]. exact (Hr Htt).
 Qed.
 
 (* the statement of the task, literally (sound_at of Lang/TypeSound.v), for expressions without `in` (`is .. in` is allowed) *)
@@ -1166,7 +1154,7 @@ Proof.
 Qed.
 
 (* 1. permissive mode is not sound (F29): the lub of {k: Long} and {k: String} drops k, so `has k` is typed False *)
-Definition sch_p : tschema := {| ts_entities := [(S_ "U", mkent [] [] None)]; ts_enums := []; ts_actions := [] |}.
+Definition sch_p : tschema := {| ts_entities := [(S_ "U", mkent [] [] None)]; ts_enums := []; ts_actions := []; ts_agraph := [] |}.
 Definition tv_p : tenv := {| tv_principal := S_ "U"; tv_action := (S_ "Action", S_ "view"); tv_resource := S_ "U"; tv_context := [(S_ "c", (CBool, true))] |}.
 Definition e_p : expr :=
   EIf (EHas (EIf (EAccess (EVar VContext) (S_ "c")) (ERecord [(S_ "k", ELit (VLong 1))]) (ERecord [(S_ "k", ELit (VString (S_ "s")))])) (S_ "k"))
@@ -1183,10 +1171,11 @@ Proof.
   - exists EType. split; vm_compute; reflexivity.
 Qed.
 
-(* 2. strict mode: the hypothesis actions_closed of typeof_sound_strict cannot be dropped.  `(if true then action else action) in G::"g"`
-   is typed False (the action type has no declared parents and the expression does not syntactically denote an action, so the action
-   hierarchy is not consulted); entity_ok says nothing about the parents of an action entity. *)
-Definition sch_a : tschema := {| ts_entities := [(S_ "G", mkent [] [] None)]; ts_enums := []; ts_actions := [(S_ "Action", S_ "view")] |}.
+(* 2. strict mode: the conformance hypothesis actions_conform cannot be dropped: env_ok alone (entity_ok says nothing about the parents
+   of an action entity) admits a store that Go's validateActionEntity rejects - Action::"view" has no declared groups but a parent
+   G::"g" - and there `(if true then action else action) in G::"g"`, typed False, is true. *)
+Definition sch_a : tschema := {| ts_entities := [(S_ "G", mkent [] [] None)]; ts_enums := []; ts_actions := [(S_ "Action", S_ "view")];
+                             ts_agraph := [((S_ "Action", S_ "view"), [])] |}.
 Definition tv_a : tenv := {| tv_principal := S_ "G"; tv_action := (S_ "Action", S_ "view"); tv_resource := S_ "G"; tv_context := [] |}.
 Definition e_a : expr :=
   EIf (EIn (EIf (ELit (VBool true)) (EVar VAction) (EVar VAction)) (ELit (VEntity (S_ "G") (S_ "g")))) ill_typed (ELit (VBool true)).
@@ -1194,14 +1183,22 @@ Definition st_a : store := [((S_ "Action", S_ "view"), {| e_parents := [(S_ "G",
 Definition en_a : env := {| e_store := st_a; e_principal := VEntity (S_ "G") (S_ "1"); e_action := VEntity (S_ "Action") (S_ "view");
                             e_resource := VEntity (S_ "G") (S_ "2"); e_context := VRecord [] |}.
 
-Example strict_needs_actions_closed : exists sch tv e t caps en,
-  schema_wf sch /\ tenv_wf sch tv /\ keys_small e = true /\
-  typeof true sch tv e [] = TOk t caps /\ env_ok sch tv en /\ (exists k, eval en e = Err k /\ allowed_error k = false).
+Example strict_needs_action_conformance : exists sch tv e t caps en,
+  schema_wf sch /\ tenv_wf sch tv /\ agraph_wf sch /\ keys_small e = true /\
+  typeof true sch tv e [] = TOk t caps /\ env_ok sch tv en /\ store_types_known sch (e_store en) /\
+  ~ actions_conform sch (e_store en) /\
+  (exists k, eval en e = Err k /\ allowed_error k = false).
 Proof.
-  exists sch_a, tv_a, e_a, CTrue, [], en_a. split; [|split; [|split; [|split; [|split]]]].
+  exists sch_a, tv_a, e_a, CTrue, [], en_a. split; [|split; [|split; [|split; [|split; [|split; [|split; [|split]]]]]]].
   - split; [reflexivity|]. intros n te H. unfold entity_of, sch_a in H. cbn [ts_entities alookup] in H.
     destruct (str_eqb (S_ "G") n); [|discriminate]. inversion H; subst te. split; [intros k t q E; discriminate | intros tt E; discriminate].
   - unfold tenv_wf. apply WT_rec. split; constructor.
+  - split; [|split].
+    + intros a ps [H|[]]. inversion H; subst. split; [reflexivity | intros p []].
+    + intros n Hn. unfold entity_of, sch_a. cbn [ts_entities ts_enums alookup smem existsb].
+      destruct (str_eqb (S_ "G") n) eqn:E; [|auto]. apply str_eqb_eq in E. subst n. vm_compute in Hn. discriminate.
+    + intros n te p H Hp. unfold entity_of, sch_a in H. cbn [ts_entities alookup] in H.
+      destruct (str_eqb (S_ "G") n); [|discriminate]. inversion H; subst te. destruct Hp.
   - reflexivity.
   - vm_compute. reflexivity.
   - split; [|split; [constructor; left; reflexivity | split; [reflexivity | split; [constructor; left; reflexivity|]]]].
@@ -1209,13 +1206,18 @@ Proof.
       match type of H with context [uid_eqb ?x ?y] => destruct (uid_eqb x y) eqn:E end; [|discriminate]. apply uid_eqb_eq in E. subst u. inversion H; subst e.
       unfold entity_ok. cbn [fst]. split; [reflexivity|]. split; [reflexivity|]. intros Hs. vm_compute in Hs. discriminate.
     + constructor; [constructor|]. intros k t E. discriminate.
+  - intros u e H. unfold en_a, st_a in H. cbn [e_store lookup] in H.
+    match type of H with context [uid_eqb ?x ?y] => destruct (uid_eqb x y) eqn:E end; [|discriminate]. apply uid_eqb_eq in E. subst u.
+    right. right. reflexivity.
+  - intros Hac. destruct (Hac (S_ "Action", S_ "view") _ eq_refl eq_refl eq_refl eq_refl) as (ps & _ & Hcl).
+    specialize (Hcl (S_ "G", S_ "g") (or_introl eq_refl)). destruct (aclosure_first _ _ _ Hcl) as (z & qs & Hq & Hz).
+    vm_compute in Hq. inversion Hq; subst qs. destruct Hz.
   - exists EType. split; vm_compute; reflexivity.
 Qed.
 
 Print Assumptions typeof_sound_strict.
-Print Assumptions typeof_sound_strict_actions.
 Print Assumptions typeof_true_caps.
 Print Assumptions typeof_strict_WT.
 Print Assumptions typeof_sound_strict_in_free.
 Print Assumptions permissive_unsound.
-Print Assumptions strict_needs_actions_closed.
+Print Assumptions strict_needs_action_conformance.
